@@ -101,8 +101,6 @@ __CPROVER_ensures(__verif_cop.bad_kill == 0)
 #ifdef COP_REQBUF
 /* transparency: whenever a co-process is available the request IS sent (nothing is refused for lack of buffer space) */
 __CPROVER_ensures(!__verif_cop.inproc_called ==> __verif_cop.req_sent == 1)
-/* ... and it names the function and the argument count the caller asked for (whichever buffer it was built in) */
-__CPROVER_ensures(!__verif_cop.inproc_called ==> (__verif_cop.req_idx == import_idx && __verif_cop.req_argc == (uint16_t)arg_count))
 __CPROVER_ensures((!__verif_cop.inproc_called && COP_IS_SCALAR(args[0].tag)) ==> __verif_cop.req_len == 6u + 1u + SPEC_COP_PAYLEN_M(args[0].tag))
 __CPROVER_ensures((!__verif_cop.inproc_called && args[0].tag == TAG_STRING) ==> __verif_cop.req_len == 6u + 5u + __verif_cop_slen)
 #endif
